@@ -19,6 +19,9 @@ NOT_APPLICABLE = {}
 NOTES = ("All checks execute the real SDK code built from /repo's current working tree under sanitizers and decide the "
          "property with runtime monitors (reference-model oracles, history checkers). Exit 0 = held on what was "
          "observed, 1 = violation not listed in known_findings.json, 2 = harness failure or inconclusive.")
+ENGINES_EXTRA = {"name": "M memcheck", "path": "vf/driver.py",
+                 "kind_free_text": "the sequential harnesses rebuilt without instrumentation and run under valgrind memcheck on a reduced case budget; every report (branch/address depending on an uninitialised value, invalid read/write/free) becomes a violation key memcheck:<kind>/<innermost SDK function>",
+                 "serves_properties": []}
 ENGINES = [
     {"name": "E1 model-oracle", "path": "harness/", "kind_free_text": "generated operation sequences applied in lock-step to the SDK (ASan+UBSan build) and to a reference model; compared after every step",
      "serves_properties": []},
@@ -36,6 +39,12 @@ for _f in sorted(glob.glob(os.path.join(os.path.dirname(os.path.abspath(__file__
     for _e in ENGINES:
         if _e["name"] == _m.SPEC.get("engine") or _e["name"] in _m.SPEC.get("engines_used", ()):
             _e["serves_properties"].append(os.path.basename(_f)[:-3].upper())
+
+
+for _p, _s in sorted(PROPS.items()):
+    if any(_r.get("wrapper") == "memcheck" for _r in _s["runs"]):
+        ENGINES_EXTRA["serves_properties"].append(_p)
+ENGINES.append(ENGINES_EXTRA)
 
 
 def setup(args):
